@@ -36,12 +36,11 @@ theorem argmax_rank1_nokeep (lt : α → α → Bool) (t : Tensor α) (n : Nat) 
     argmaxOp lt t 0 false = .error .other :=
   Proofs.Reduce.argmax_rank1_nokeep lt t n h
 
-/-- effect: with keepdims the input's own shape is overwritten whenever the reduced extent is not 1
-(known finding argmax.keepdims_mutates_input; C02) -/
-theorem argmax_keepdims_mutates (lt : α → α → Bool) (t : Tensor α) (ax : Nat) (hax : ax < t.shape.length)
-    (hne : dim t.shape ax ≠ 1) :
-    ∃ m, argmaxOp lt t (ax : Int) true = .ok (m, some (t.shape.set ax 1)) :=
-  Proofs.Reduce.argmax_keepdims_mutates lt t ax hax hne
+/-- effect: ArgMax never writes to its input, with or without keepdims (since the `fix:` commit that
+clones the shape; before it, keepdims overwrote the input's own shape — fixed finding, see C02) -/
+theorem argmax_pure (lt : α → α → Bool) (t : Tensor α) (axis : Int) (keep : Bool) (m : Tensor Int) (mu : Option (List Nat))
+    (h : argmaxOp lt t axis keep = .ok (m, mu)) : mu = none :=
+  Proofs.Reduce.argmax_pure lt t axis keep m mu h
 
 /-- without keepdims nothing is written to the input -/
 theorem argmax_nokeep_pure (lt : α → α → Bool) (t : Tensor α) (axis : Int) (m : Tensor Int) (mu : Option (List Nat))
